@@ -28,11 +28,12 @@ from engines import http_common as H
 
 RULE = ('decode: grammar-generated responses (status codes incl. 1xx/204/304, HEAD, header spellings / case / folding / '
         'LF-only / duplicates / latin-1 bytes, Content-Length, chunked with extensions, hex spellings and trailers, '
-        'read-until-close, invalid lengths, content codings, byte mutations, over-long heads) x variants '
+        'read-until-close, invalid lengths, content codings, byte mutations, over-long heads) x Stream options '
+        '(keep_alive x ignore_length, all four, every message) x variants '
         '(complete, complete+surplus, truncated at a random / every position, peer keeps the connection open) x '
         'segmentations (none, random, every single cut, all single bytes); session: sequences of 2-5 such messages on a '
         'reactive server. non-trivial = a response head was at least attempted (non-empty stream); distinct by '
-        '(stream bytes, eof, request, segmentation)')
+        '(stream bytes, eof, request, options, segmentation)')
 TRUSTED = ['asyncio.StreamReader read/readline semantics are mirrored (differential stream "sr")',
            'CPython str/bytes/int/re primitives are mirrored (differential stream "py")',
            'harness/fakenet.py in-memory transports',
@@ -256,11 +257,41 @@ def cutsets(rng, n, thorough):
     return cs
 
 
-def check_one(ctx, m, tag, data, eof, segs, x, cache):
-    """Direct property oracle on the real outcome `x` of one (stream, segmentation)."""
-    case = {'stream': 'decode', 'msg': m.case(), 'variant': tag, 'data': data, 'eof': eof, 'segs': segs}
+def check_relaxed(ctx, case, m, tag, data, eof, x):
+    """ignore_length on a Content-Length message: the body is delimited by the peer's close
+    (the one thing the option may change); everything else still holds."""
+    if tag == 'truncated':
+        if len(data) < len(m.head) and x.outcome == 'ok':
+            ctx.fail('truncation-accepted', 'read_response', case, 'a head cut short was accepted')
+        return
+    if not eof:
+        return          # read-until-close needs the close; waiting is right
+    ref = H.ref_decode(data, m.method, ignore_length=True)
+    if ref.kind != 'complete' or not ref.until_close or ref.payload != data[len(m.head):]:
+        raise Infra('reference decoder: ignore_length on a length-framed message must read until close')
+    if x.outcome != 'ok':
+        if m.coding and x.outcome == 'exc':
+            return      # content decoder met the surplus / bad data (C19)
+        ctx.fail('complete-message-blocks' if x.outcome == 'stalled' else 'complete-message-error', 'read_body', case,
+                 'ignore_length: a message closed by the peer ended %s %s' % (x.outcome, x.exc))
+        return
+    if x.status[1] != m.code:
+        ctx.fail('wrong-status', 'parse_status_line', case, 'status %r, server sent %d' % (x.status, m.code))
+    if m.coding is None and x.body != ref.payload:
+        ctx.fail('wrong-body', 'read_body', case, 'ignore_length: body %r..(%d bytes), bytes up to the close are %r..(%d bytes)'
+                 % (x.body[:60], len(x.body), ref.payload[:60], len(ref.payload)))
+    if b''.join(x.notified) != data:
+        ctx.fail('notified-not-message', 'notify_read', case, 'listener data is not exactly the bytes up to the close')
+    if x.consumed != len(data):
+        ctx.fail('consumed-not-message-length', 'read_body', case, 'consumed %d of %d bytes' % (x.consumed, len(data)))
+
+
+def check_one(ctx, m, tag, data, eof, segs, x, cache, opts=(True, False)):
+    """Direct property oracle on the real outcome `x` of one (stream, segmentation, options)."""
+    case = {'stream': 'decode', 'msg': m.case(), 'variant': tag, 'data': data, 'eof': eof, 'segs': segs,
+            'opts': list(opts)}
     # (1) segmentation independence
-    key = (data, eof, m.method, m.version)
+    key = (data, eof, m.method, m.version, tuple(opts))
     obs = (x.key(), b''.join(x.notified) if x.outcome == 'ok' else None)
     prev = cache.setdefault(key, (segs, obs))
     if prev[1] != obs:
@@ -274,6 +305,11 @@ def check_one(ctx, m, tag, data, eof, segs, x, cache):
     if ref.kind != 'complete' or ref.length != len(m.message) or ref.payload != m.payload or ref.code != m.code:
         raise Infra('generator and reference decoder disagree on a well-formed message: %r' % (m.case(),))
     mlen = len(m.message)
+    if H.relaxed_by_options(m, opts):
+        check_relaxed(ctx, case, m, tag, data, eof, x)
+        return
+    # from here on the options must make no difference to what is delimited (keep_alive only
+    # decides about closing afterwards; ignore_length only concerns Content-Length framing)
     if tag in ('complete', 'surplus'):
         if x.outcome != 'ok':
             if m.coding in ('gzip-bad',) and x.outcome == 'exc':
@@ -314,37 +350,43 @@ def check_one(ctx, m, tag, data, eof, segs, x, cache):
 
 
 def stream_decode(ctx, items, thorough, cache=None):
-    """items: list of (Msg, tag, data, eof, [cut lists])"""
+    """items: list of (Msg, tag, data, eof, [cut lists]) or (…, (keep_alive, ignore_length))"""
     cache = {} if cache is None else cache
     runs = []
-    for m, tag, data, eof, css in items:
+    for item in items:
+        m, tag, data, eof, css = item[:5]
+        opts = tuple(item[5]) if len(item) > 5 else (True, False)
         for cuts in css:
             segs = fakenet.segment(data, cuts)
-            x = H.real_stream_exchange(segs, eof, method=m.method, version=m.version)
-            runs.append((m, tag, data, eof, segs, x))
-    lines = [H.model_line(data, eof, H.sched_of(x.calls), x.declog, method=m.method, version=m.version)
-             for m, tag, data, eof, segs, x in runs]
+            x = H.real_stream_exchange(segs, eof, method=m.method, version=m.version,
+                                       keep_alive=opts[0], ignore_length=opts[1])
+            runs.append((m, tag, data, eof, segs, x, opts))
+    lines = [H.model_line(data, eof, H.sched_of(x.calls), x.declog, method=m.method, version=m.version,
+                          keep_alive=opts[0], ignore_length=opts[1])
+             for m, tag, data, eof, segs, x, opts in runs]
     replies = ctx.model.ask(lines)
-    for (m, tag, data, eof, segs, x), rep in zip(runs, replies):
+    for (m, tag, data, eof, segs, x, opts), rep in zip(runs, replies):
         real = H.fmt_exchange(x)
         tags = ['decode:' + tag, 'decode:out=' + (x.outcome if x.outcome != 'exc' else 'exc:' + x.exc),
-                'decode:segs=%s' % ('1' if len(segs) <= 1 else '2-4' if len(segs) <= 4 else '5+')] + \
+                'decode:segs=%s' % ('1' if len(segs) <= 1 else '2-4' if len(segs) <= 4 else '5+'),
+                'decode:opts=%s%s/%s' % ('ka' if opts[0] else 'noka', '+il' if opts[1] else '', m.framing)] + \
                ['decode:' + t for t in m.tags] + (['decode:coding'] if m.coding else []) + \
                (['decode:HEAD'] if m.method == 'HEAD' else [])
-        ctx.case(('decode', data, eof, m.method, m.version, tuple(segs)), nontrivial=len(data) > 0, tags=tags)
+        ctx.case(('decode', data, eof, m.method, m.version, tuple(segs), opts), nontrivial=len(data) > 0, tags=tags)
         if real != rep:
-            ctx.disagree('decode', {'data': data, 'eof': eof, 'segs': segs, 'method': m.method, 'version': m.version},
-                         rep[:1500], real[:1500])
-        check_one(ctx, m, tag, data, eof, segs, x, cache)
+            ctx.disagree('decode', {'data': data, 'eof': eof, 'segs': segs, 'method': m.method, 'version': m.version,
+                                    'opts': list(opts)}, rep[:1500], real[:1500])
+        check_one(ctx, m, tag, data, eof, segs, x, cache, opts)
     if runs:
-        m, tag, data, eof, segs, x = runs[0]
+        m, tag, data, eof, segs, x, opts = runs[0]
         ctx.sample({'stream': 'decode', 'variant': tag, 'data': data[:200], 'eof': eof, 'segments': len(segs),
                     'outcome': x.outcome, 'method': m.method})
 
 
 # ------------------------------------------------------------------ session stream
-def gen_sequence(rng):
-    """A lock-step sequence: well-formed, self-delimiting messages; some send surplus early."""
+def gen_sequence(rng, opts=(True, False)):
+    """A lock-step sequence: well-formed, self-delimiting messages; some send surplus early.
+    With ignore_length a Content-Length message is delimited by the peer's close."""
     exs = []
     for k in range(rng.randrange(2, 6)):
         while True:
@@ -357,7 +399,7 @@ def gen_sequence(rng):
         last = False
         if m.framing != 'close' and rng.random() < 0.3:
             surplus = rng.choice([b'X', b'\r\n', b'HTTP/1.1 200 OK\r\nContent-Length: 4\r\n\r\nEVIL', b'junk' * 3])
-        eof = m.framing == 'close' or rng.random() < 0.15
+        eof = m.framing == 'close' or H.relaxed_by_options(m, opts) or rng.random() < 0.15
         segs = fakenet.segment(data, fakenet.random_cuts(rng, len(data)) if len(data) <= 1500 else
                                sorted(rng.sample(range(1, len(data)), rng.choice([0, 1, 3, 12]))))
         if surplus:
@@ -370,8 +412,8 @@ def gen_sequence(rng):
     return exs
 
 
-def check_sequence(ctx, exs, results, where='Session'):
-    case = {'stream': 'session',
+def check_sequence(ctx, exs, results, where='Session', opts=(True, False)):
+    case = {'stream': 'session', 'opts': list(opts),
             'exchanges': [{'segs': e['segs'], 'eof': e['eof'], 'method': e['method'], 'version': e['version'],
                            'path': e['path'], 'msg': e['msg'].case(), 'surplus': e['surplus']} for e in exs]}
     for k, (e, r) in enumerate(zip(exs, results)):
@@ -382,26 +424,36 @@ def check_sequence(ctx, exs, results, where='Session'):
         if not r['requests'][0].startswith(('%s %s ' % (e['method'], e['path'])).encode()):
             ctx.fail('request-mismatch', where, case, 'exchange %d: server got %r' % (k, r['requests'][0][:80]))
         if x.outcome != 'ok':
+            if H.relaxed_by_options(m, opts) and m.coding and x.outcome == 'exc':
+                continue        # the content decoder met the surplus (C19); nothing to say about framing
             kind = 'next-response-not-from-first-byte' if k > 0 and exs[k - 1]['surplus'] else 'lockstep-exchange-failed'
             ctx.fail(kind, where, case, 'exchange %d ended %s %s (previous exchange sent %d surplus bytes)'
                      % (k, x.outcome, x.exc, len(exs[k - 1]['surplus']) if k else 0))
             return
         want = m.payload if m.coding is None else H.one_shot_decode(m.coding, m.payload)
+        sent = m.message
+        if H.relaxed_by_options(m, opts):
+            # ignore_length: everything up to the peer's close belongs to this response
+            want = (m.payload + e['surplus']) if m.coding is None else None
+            sent = m.message + e['surplus']
         if x.status[1] != m.code or (want is not None and x.body != want):
             kind = 'next-response-not-from-first-byte' if k > 0 and exs[k - 1]['surplus'] else 'wrong-body'
             ctx.fail(kind, where, case, 'exchange %d: status %r body %r.. but the server sent %d / %r..'
                      % (k, x.status, x.body[:40], m.code, (want or b'')[:40]))
             return
-        if b''.join(x.notified) != m.message:
+        if b''.join(x.notified) != sent:
             ctx.fail('notified-not-message', where, case, 'exchange %d: response data events are not the message bytes' % k)
             return
 
 
 def stream_session(ctx, seqs):
+    """seqs: list of exchange lists or of (exchange list, (keep_alive, ignore_length))"""
     lines, metas = [], []
-    for exs in seqs:
-        results, conns = H.real_session_sequence(exs)
-        check_sequence(ctx, exs, results)
+    for item in seqs:
+        exs, opts = item if isinstance(item, tuple) else (item, (True, False))
+        opts = tuple(opts)
+        results, conns = H.real_session_sequence(exs, keep_alive=opts[0], ignore_length=opts[1])
+        check_sequence(ctx, exs, results, opts=opts)
         toks = []
         for e, r in zip(exs, results):
             x = r['x']
@@ -409,10 +461,10 @@ def stream_session(ctx, seqs):
             toks += [enc(e['method']), enc(e['version']), 'T' if e['eof'] else 'F', enc(data),
                      '-' if not H.sched_of(x.calls) else '.'.join('%x' % s for s in H.sched_of(x.calls)),
                      ','.join(('o' + enc(v)) if k == 'ok' else ('e' + v) for k, v in x.declog) or '~']
-        lines.append('http session T ' + ' '.join(toks))
-        metas.append((exs, results))
+        lines.append('http session %s %s ' % ('T' if opts[0] else 'F', 'T' if opts[1] else 'F') + ' '.join(toks))
+        metas.append((exs, results, opts))
     replies = ctx.model.ask(lines)
-    for (exs, results), rep in zip(metas, replies):
+    for (exs, results, opts), rep in zip(metas, replies):
         parts = rep.split(' || ') if rep != '~' else []
         real_parts = []
         model_parts = []
@@ -422,10 +474,12 @@ def stream_session(ctx, seqs):
             model_parts.append('%s:%s | %s | %s' % (idx, f[0], f[2], f[3]) if len(f) == 4 else p)
             g = H.fmt_exchange_nc(r['x'])
             real_parts.append('%s:%s' % (r['conn'], g))
-        ctx.case(('session', tuple((tuple(e['segs']), e['eof'], e['method']) for e in exs)),
-                 tags=['session:len=%d' % len(exs)] + (['session:surplus'] if any(e['surplus'] for e in exs) else []))
+        ctx.case(('session', tuple((tuple(e['segs']), e['eof'], e['method']) for e in exs), opts),
+                 tags=['session:len=%d' % len(exs), 'session:opts=%s%s' % ('ka' if opts[0] else 'noka', '+il' if opts[1] else '')]
+                 + (['session:surplus'] if any(e['surplus'] for e in exs) else []))
         if len(parts) != len(results) or real_parts != model_parts:
-            ctx.disagree('session', {'exchanges': [{'segs': e['segs'], 'eof': e['eof'], 'method': e['method']} for e in exs]},
+            ctx.disagree('session', {'opts': list(opts),
+                                     'exchanges': [{'segs': e['segs'], 'eof': e['eof'], 'method': e['method']} for e in exs]},
                          [p[:600] for p in model_parts], [p[:600] for p in real_parts])
     if metas:
         ctx.sample({'stream': 'session', 'exchanges': len(metas[0][0]),
@@ -455,14 +509,14 @@ def _replay(ctx, case, kind=None, where=None):
         if 'segs_b' in case:
             css.append(H.cuts_of(case['segs_b']))
         css += [[], list(range(1, len(data)))]
-        stream_decode(ctx, [(m, case['variant'], data, eof, css)], True)
+        stream_decode(ctx, [(m, case['variant'], data, eof, css, tuple(case.get('opts', (True, False))))], True)
     elif s == 'session':
         exs = []
         for e in case['exchanges']:
             e = dict(e)
             e['msg'] = H.Msg.from_case(e['msg'])
             exs.append(e)
-        stream_session(ctx, [exs])
+        stream_session(ctx, [(exs, tuple(case.get('opts', (True, False))))])
     else:
         raise Infra('unknown replay stream %r' % s)
 
@@ -537,15 +591,30 @@ def _run(ctx, pid='C08'):
             items.append((m, 'surplus', msg + b'XY', False, [[], list(range(1, n + 2)), [n], [n + 1]]))
         for c in range(0, n, 1 if thorough else 3):
             items.append((m, 'truncated', msg[:c], True, [[], list(range(1, c))]))
+        # the Stream options are a full dimension: every framing under every (keep_alive, ignore_length)
+        for opts in H.OPTS[1:]:
+            for eof in ((True,) if m.framing == 'close' else (True, False)):
+                items.append((m, 'complete', msg, eof, [[], list(range(1, n)), [len(m.head)], [n - 1]], opts))
+                if m.framing != 'close':
+                    items.append((m, 'surplus', msg + b'XY', eof, [[], list(range(1, n + 2)), [n]], opts))
+            for c in sorted({len(m.head) - 2, len(m.head), len(m.head) + 1, n - 3, n - 1}):
+                if 0 <= c < n:
+                    items.append((m, 'truncated', msg[:c], True, [[], list(range(1, c))], opts))
     stream_decode(ctx, items, thorough, cache)
     ctx.note('t_fixed', round(time.time() - t0, 1))
     # generated messages
     batch = []
-    total = ctx.scale(1400, 7000)
+    total = ctx.scale(750, 5000)
     for i in range(total):
         m = H.gen_message(rng)
         for tag, data, eof in variants(rng, m, thorough):
-            batch.append((m, tag, data, eof, cutsets(rng, len(data), thorough) if len(data) <= 12000 else [[], fakenet.random_cuts(rng, len(data), 'few')]))
+            css = cutsets(rng, len(data), thorough) if len(data) <= 12000 else [[], fakenet.random_cuts(rng, len(data), 'few')]
+            batch.append((m, tag, data, eof, css))
+            # every generated message also runs under the three other option combinations
+            # (fewer segmentations each: unsegmented + one of the above)
+            for opts in H.OPTS[1:]:
+                eof2 = eof if (m.framing == 'close' or rng.random() < 0.5) else (not eof)
+                batch.append((m, tag, data, eof2, [[], css[rng.randrange(len(css))]], opts))
         if len(batch) >= 400:
             stream_decode(ctx, batch, thorough, cache)
             batch = []
@@ -556,7 +625,12 @@ def _run(ctx, pid='C08'):
         exhaustive_small(ctx)
     # lock-step sequences on the real client
     srng = ctx.subrng('session')
-    stream_session(ctx, [gen_sequence(srng) for _ in range(ctx.scale(120, 800))])
+    nseq = ctx.scale(120, 800)
+    seqs = []
+    for i in range(nseq):
+        opts = H.OPTS[1 + (i // 2) % 3] if i % 2 else (True, False)      # half default, the rest spread over the other three
+        seqs.append((gen_sequence(srng, opts), opts))
+    stream_session(ctx, seqs)
     ctx.note('read_sizes', 'the model replays the logged size of every Connection.read; calls are compared one by one')
 
 
@@ -594,7 +668,8 @@ def _search(ctx):
     batch = []
     for i in range(ctx.scale(60, 120)):
         m = H.gen_message(rng)
+        opts = H.OPTS[i % 4]
         for tag, data, eof in variants(rng, m, True):
-            batch.append((m, tag, data, eof, cutsets(rng, len(data), True) if len(data) <= 12000 else [[]]))
+            batch.append((m, tag, data, eof, cutsets(rng, len(data), True) if len(data) <= 12000 else [[]], opts))
     stream_decode(ctx, batch, True, cache)
-    stream_session(ctx, [gen_sequence(rng) for _ in range(ctx.scale(20, 40))])
+    stream_session(ctx, [(gen_sequence(rng, H.OPTS[i % 4]), H.OPTS[i % 4]) for i in range(ctx.scale(20, 40))])
